@@ -30,6 +30,10 @@ import vt
 from vt import Infra
 
 LEVEL = "exploration"
+# input-delivery dimension (strengthening after seeded change C12-7): the same bytes given on the standard input (`-xc -`)
+# by redirection from the file, through a pipe in one piece, and through a pipe in two pieces with a pause after N bytes.
+# The deliveries play the role of environments in Bootstrap.tla: out[k] must not depend on them.
+DELIVERIES = ["in:redir", "in:pipe", "in:split1", "in:split4095", "in:split4097", "in:split6000"]
 MODES = ["-S", "-E", "-c"]
 FLAGS = ["", "-fPIC", "-fno-common"]
 # option sets that write side files / use default output names (strengthening after seeded change C12-2): run in a
@@ -119,6 +123,46 @@ def lex_files():
     return out
 
 
+LIM_VALUES = ["0", "1", "-1", "2147483647", "2147483648", "-2147483647 - 1", "-2147483649", "4294967295", "4294967296",
+              "9223372036854775807", "-9223372036854775807 - 1", "18446744073709551615", "4095", "4096", "4097", "65535", "65536", "63", "64", "65"]
+LIM_FORMS = [("enum_next", "enum { A = %s, B, C }; long x = B, y = C;\n"), ("enum_val", "enum { A = %s }; long x = A, n = sizeof(A);\n"),
+             ("array_size", "char a[%s]; long n = sizeof a;\n"), ("array2d", "char a[2][%s]; long n = sizeof a;\n"),
+             ("shl", "long x = 1L << (%s); int y = 1 << (%s);\n"), ("shr", "long x = -1L >> (%s); unsigned y = 1u >> (%s);\n"),
+             ("shl_run", "long f(long v) { return v << (%s); }\n"),
+             ("bitfield", "struct { int a : %s; } s; long n = sizeof s;\n"), ("alignas", "_Alignas(%s) char c; long n = _Alignof(c);\n"),
+             ("case", "int f(long x) { switch (x) { case %s: return 1; case 5: return 2; } return 0; }\n"),
+             ("case_range", "int f(int x) { switch (x) { case 0 ... %s: return 1; } return 0; }\n"),
+             ("line", "#line %s\nint x = __LINE__;\n"), ("add", "long x = (%s) + (%s); int y = (%s) + 1;\n"), ("sub", "long x = (%s) - 1; int y = -(%s);\n"),
+             ("mul", "long x = (%s) * (%s); int y = (%s) * 2;\n"), ("div", "long x = (%s) / -1; long y = (%s) %% -1;\n"),
+             ("int_init", "int i = %s; char c = %s; short s = %s; unsigned u = %s; _Bool b = %s; float f = %s; long l = %s;\n"),
+             ("pp_if", "#if (%s) + 1 > 0 && (%s) * 2 != 1\nint x = 1;\n#else\nint x = 2;\n#endif\n"),
+             ("index", "int a[4]; int *p = &a[%s]; int f(void) { return a[%s]; }\n"),
+             ("desig", "char a[] = { [%s] = 1 };\n"), ("ptr_add", "char *f(char *p) { return p + (%s); } long g(long v) { return v * (%s) + (%s); }\n"),
+             ("cast", "long x = (int)(%s) + (char)(%s) + (unsigned short)(%s) + (long)(unsigned)(%s);\n"),
+             ("float_conv", "long x = (long)(double)(%s); double d = %s; long y = (long)((%s) * 1.5);\n")]
+LIM_SIZES = [0, 1, 2, 4095, 4096, 4097, 65535, 65536]
+
+
+def lim_files():
+    """arithmetic-limit family (strengthening after seeded change C12-6): every construct whose value the compiler computes in
+    host arithmetic x values at the limits of int / long / small buffers; one construct per tiny file.  Closed domain."""
+    out = []
+    for form, tmpl in LIM_FORMS:
+        for v in LIM_VALUES:
+            if form == "desig" and len(v) > 5:          # an initializer with 10^9 elements only reaches D41 (memory)
+                continue
+            out.append(("lim/%s@%s" % (form, v.replace(" ", "")), tmpl.replace("%s", v).replace("%%", "%").encode()))
+    for n in LIM_SIZES:
+        body = "".join(chr(97 + i % 26) for i in range(n))
+        out.append(("lim/string@%d" % n, ('char s[] = "%s"; char *p = "%s"; long n = sizeof s;\n' % (body, body)).encode()))
+        out.append(("lim/wstring@%d" % n, ('int w[] = L"%s"; long n = sizeof w;\n' % body).encode()))
+        out.append(("lim/initcount@%d" % n, ("char a[] = { %s }; long n = sizeof a;\n" % ", ".join("1" for _ in range(n))).encode()))
+        out.append(("lim/ident@%d" % n, ("int v%s = 1;\n" % body).encode()))
+        out.append(("lim/macro_args@%d" % min(n, 4097), ("#define F(...) 0\nint x = F(%s);\n" % ", ".join("1" for _ in range(min(n, 4097)))).encode()))
+        out.append(("lim/line_len@%d" % n, ("int x = 1 %s;\n" % ("+ 1 " * (n // 4))).encode()))
+    return out
+
+
 def expr_files(ctx, nfiles):
     """C01 vectors (ExprGen.tla, a thin slice of its closed domain) as batched programs; [] if unavailable."""
     try:
@@ -165,7 +209,8 @@ def make_corpus(ctx, tree, exprs):
         if uses_time_macros(open(path, errors="replace").read()):
             skipped.append(name)
             return
-        items.append(dict(name=name, path=path, flags=flags, cls=cls, side=side))
+        items.append(dict(name=name, path=path, flags=flags, cls=cls, side=side,
+                          stdin=side and os.path.getsize(path) > 6100 and (cls == "own" or len([1 for x in items if x.get("stdin") and x["cls"] == cls]) < 6)))
     for f in sorted(glob.glob(tree + "/*.c")):
         add("own/" + os.path.basename(f), f, [], "own", side=True)
     for f in sorted(glob.glob(tree + "/test/*.c")):
@@ -187,10 +232,12 @@ def make_corpus(ctx, tree, exprs):
         p = "%s/%s.c" % (d, re.sub(r"[^A-Za-z0-9_.~-]", "_", name))
         open(p, "w").write(text)
         add(name, p, [], name.split("/")[0])
-    for name, data in vt.subsample(lex_files(), ctx.seed, 12 if q else 1):
+        if q and name.startswith(("seed/", "edit/")):
+            items[-1]["only"] = list(MODES)       # quick: tiny seed programs under -S / -E / -c only (no -fPIC / -fno-common)
+    for name, data in vt.subsample(lex_files(), ctx.seed, 12 if q else 1) + vt.subsample(lim_files(), ctx.seed, 3 if q else 1):
         p = "%s/%s.c" % (d, name.replace("/", "_"))
         open(p, "wb").write(data)
-        add(name, p, [], "lex")
+        add(name, p, [], name.split("/")[0])
         items[-1]["only"] = ["-S", "-E"]          # tiny one-construct files: two option sets are enough
     ctx.cov["corpus"] = dict(total=len(items), excluded_date_time=skipped,
                              by_class={c: len([1 for x in items if x["cls"] == c]) for c in sorted(set(x["cls"] for x in items))})
@@ -210,19 +257,60 @@ def worker_main(jobfile):
             e = dict(os.environ)
             e.pop("CHIBICC_VERIF_TRACE", None)
             e.update(j["env"])
-            p = subprocess.Popen(j["cmd"], cwd=j["cwd"], env=e, stdin=subprocess.DEVNULL,
+            sin, feeder = subprocess.DEVNULL, None
+            if j.get("stdin"):
+                sin = open(j["stdin"]["path"], "rb") if j["stdin"]["kind"] == "redir" else subprocess.PIPE
+            p = subprocess.Popen(j["cmd"], cwd=j["cwd"], env=e, stdin=sin,
                                  stdout=subprocess.PIPE if j.get("dir") else subprocess.DEVNULL,
                                  stderr=subprocess.PIPE, start_new_session=True)
+            if j.get("stdin") and j["stdin"]["kind"] != "redir":
+                def feed(p=p, spec=j["stdin"]):
+                    data = open(spec["path"], "rb").read()
+                    try:
+                        n = spec.get("split") or len(data)
+                        p.stdin.write(data[:n])
+                        p.stdin.flush()
+                        if n < len(data):
+                            time.sleep(0.25)              # the writer has not delivered the rest yet
+                            p.stdin.write(data[n:])
+                        p.stdin.close()
+                    except (BrokenPipeError, OSError):
+                        pass
+                import threading as _th
+                feeder = _th.Thread(target=feed)
+                feeder.start()
             out = b""
             try:
-                out, err = p.communicate(timeout=j["timeout"])
+                if feeder:          # communicate() would close stdin under the feeder: read stderr ourselves
+                    killed = []
+
+                    def kill(p=p):
+                        killed.append(1)
+                        try:
+                            os.killpg(p.pid, signal.SIGKILL)
+                        except ProcessLookupError:
+                            pass
+                    wd = _th.Timer(j["timeout"], kill)
+                    wd.start()
+                    err = p.stderr.read()
+                    p.wait()
+                    wd.cancel()
+                    feeder.join()
+                    if killed:
+                        raise subprocess.TimeoutExpired(j["cmd"], j["timeout"])
+                else:
+                    out, err = p.communicate(timeout=j["timeout"])
                 rc = p.returncode
             except subprocess.TimeoutExpired:
                 try:
                     os.killpg(p.pid, signal.SIGKILL)
                 except ProcessLookupError:
                     pass
-                out, err = p.communicate()
+                if feeder:
+                    err = b""
+                    p.wait()
+                else:
+                    out, err = p.communicate()
                 rc = -999
             if j.get("dir"):          # every file the run left in its private directory (name and bytes) + stdout
                 parts, n = [("<stdout>", sha(out or b""))], len(out or b"")
@@ -258,6 +346,12 @@ class Runner:
 
     def job(self, item, mode, flag, stage, env, gid=0):
         self.n += 1
+        if mode == "stdin":           # env is the delivery; flag is -S / -E; cwd = the input's directory (its #include "..." must resolve)
+            out = "%s/o%d" % (self.outd, self.n)
+            cmd = [self.bins[stage]] + item["flags"] + ["-I" + self.tree + "/include", flag, "-o", out, "-xc", "-"]
+            kind = env.split(":")[1]
+            spec = dict(path=item["path"], kind="redir" if kind == "redir" else "pipe", split=int(kind[5:]) if kind.startswith("split") else 0)
+            return dict(id=self.n, cmd=cmd, cwd=os.path.dirname(item["path"]), gid=gid, env={}, out=out, timeout=60, stdin=spec)
         if mode == "side":
             d = "%s/g%d" % (self.sided, gid)
             os.makedirs(d, exist_ok=True)
@@ -279,7 +373,8 @@ class Runner:
         """work: list of (item, mode, flag, stage) -> list of (event, output size, stderr head).
         The runs of one group (gid) go to one worker, in order: side-file groups share a private directory."""
         gids = gids or list(range(len(work)))
-        jobs = [self.job(it, m, f, st, env, g) for (it, m, f, st), g in zip(work, gids)]
+        envs = env if isinstance(env, list) else [env] * len(work)          # one environment for all, or one per run
+        jobs = [self.job(it, m, f, st, e, g) for (it, m, f, st), g, e in zip(work, gids, envs)]
         nw = min(vt.NCPU, max(1, len(jobs) // 8))
         files = []
         for w in range(nw):
@@ -298,11 +393,28 @@ class Runner:
                 got[r["id"]] = r
         if len(got) != len(jobs):
             raise Infra("run workers returned %d of %d results" % (len(got), len(jobs)))
-        return [(dict(e="run", stage=st, env=env, rc=got[j["id"]]["rc"], sha=got[j["id"]]["sha"], err=got[j["id"]]["err"]),
-                 got[j["id"]]["n"], got[j["id"]]["head"]) for j, (it, m, f, st) in zip(jobs, work)]
+        return [(dict(e="run", stage=st, env=e, rc=got[j["id"]]["rc"], sha=got[j["id"]]["sha"], err=got[j["id"]]["err"]),
+                 got[j["id"]]["n"], got[j["id"]]["head"]) for j, (it, m, f, st), e in zip(jobs, work, envs)]
 
     def groups_of_keys(self, keys, label):
-        """all runs of every (input, mode, flag) group; environment A first, B at least one second later"""
+        """all runs of every (input, mode, flag) group; environment A first, B at least one second later;
+        groups of the input-delivery dimension (mode "stdin") run once per delivery instead"""
+        sk = [ki for ki, k in enumerate(keys) if k[1] == "stdin"]
+        if sk:
+            nk = [ki for ki, k in enumerate(keys) if k[1] != "stdin"]
+            out = [None] * len(keys)
+            for ki, g in zip(nk, self.groups_of_keys([keys[ki] for ki in nk], label) if nk else []):
+                out[ki] = g
+            res = {}
+            work = [(keys[ki][0], "stdin", keys[ki][2], st) for ki in sk for dv in DELIVERIES for st in (1, 2, 3)]
+            idx = [ki for ki in sk for dv in DELIVERIES for st in (1, 2, 3)]
+            dvs = [dv for ki in sk for dv in DELIVERIES for st in (1, 2, 3)]
+            for ki, r in zip(idx, self.run_many(work, dvs, idx)):
+                res.setdefault(ki, []).append(r)
+            self.ctx.phase("%s: standard-input deliveries done (%d runs)" % (label, len(sk) * 3 * len(DELIVERIES)))
+            for ki in sk:
+                out[ki] = (keys[ki], res[ki])
+            return out
         res = {}
         for env in ENVS:
             t0 = time.time()
@@ -318,12 +430,15 @@ class Runner:
     def groups(self, items, label):
         keys = [(it, m, f) for it in items for m in MODES for f in FLAGS if not it.get("only") or (m in it["only"] and not f)]
         keys += [(it, "side", o) for it in items if it.get("side") for o in SIDE]
+        keys += [(it, "stdin", m) for it in items if it.get("stdin") for m in ("-S", "-E")]
         return self.groups_of_keys(keys, label)
 
 
 def opts_of(mode, flag):
     if mode == "side":
         return flag + "  [private cwd, all files]"
+    if mode == "stdin":
+        return flag + " -xc -  [standard input]"
     return mode + (" " + flag if flag else "")
 
 
@@ -354,7 +469,8 @@ def disagreement(runs):
     """name the kind of disagreement inside one group (for the signature)"""
     by = {(r["stage"], r["env"]): (r["rc"], r["sha"], r["err"]) for r, _, _ in runs}
     kinds = []
-    for e in ENVS:
+    envs = sorted({r["env"] for r, _, _ in runs})
+    for e in envs:
         for a, b in ((1, 2), (2, 3), (1, 3)):
             if (a, e) in by and (b, e) in by and by[(a, e)] != by[(b, e)]:
                 kinds.append("stage%d!=stage%d" % (a, b))
@@ -362,7 +478,7 @@ def disagreement(runs):
         if kinds:
             break
     for k in (1, 2, 3):
-        if (k, "A") in by and (k, "B") in by and by[(k, "A")] != by[(k, "B")]:
+        if len({by[(k, e)] for e in envs if (k, e) in by}) > 1:
             kinds.append("env:stage%d" % k)
             break
     what = set()
@@ -515,8 +631,8 @@ def replay(ctx, path):
         return ctx.finish(rule="replay of one recorded case")
     d = ctx.tmp("corpus")
     p = "%s/%s.c" % (d, re.sub(r"[^A-Za-z0-9_.~-]", "_", c["name"]))
-    if c["cls"] == "lex":
-        open(p, "wb").write(dict(lex_files())[c["name"]])
+    if c["cls"] in ("lex", "lim"):
+        open(p, "wb").write(dict(lex_files() + lim_files())[c["name"]])
     elif c["cls"] == "boot":
         p = os.path.join(vt.VERIF, "seeds", c["name"])
     elif c["cls"] in ("own", "test"):
